@@ -243,6 +243,17 @@ func (g *Gen) callWrites(li *loopInfo, ct *Contract, cc *ssa.CallCommon, addTarg
 		found := false
 		// ghost cells of abstract readers / writers: one Int cell at a negative offset of the reference
 		if m.E.Op == "call" && m.E.Args[0].Op == "id" && len(m.E.Args) == 2 && m.E.Args[1].Op == "id" {
+			if m.E.Args[0].Tok == "hcontent" {
+				for i, n := range names {
+					if n == m.E.Args[1].Tok && i < len(cc.Args) && g.definedOutside(li, cc.Args[i]) {
+						addRegion(region{"Bytes", g.val(cc.Args[i]).S[0], "0", "1", 1})
+						found = true
+					}
+				}
+				if found {
+					continue
+				}
+			}
 			if off, isGhostCell := map[string]string{"rpos": "(- 1)", "wcalls": "(- 2)", "wlen": "(- 3)"}[m.E.Args[0].Tok]; isGhostCell {
 				for i, n := range names {
 					if n == m.E.Args[1].Tok && i < len(cc.Args) && g.definedOutside(li, cc.Args[i]) {
@@ -663,7 +674,7 @@ func (g *Gen) wellFormedLoaded(v *Val) string {
 	}
 	var ps []string
 	for i, c := range cs {
-		if c.Role == "obj" {
+		if c.Role == "obj" || c.Role == "ref" {
 			ps = append(ps, fmt.Sprintf("(< %s %s)", v.S[i], g.nextobj))
 		}
 	}
@@ -832,6 +843,12 @@ func (g *Gen) convert(x *ssa.Convert) *Val {
 		ln := g.freshConst("strlen", "Int")
 		g.assumeRaw(fmt.Sprintf("(= %s (strlen %s))", ln, v.S[0]))
 		g.use("str")
+		// the content is the string's bytes: an arbitrary row, tied to the string by strbytes in the bytes model
+		row := g.freshConst("strrow", "(Array Int Int)")
+		g.heap["Int"] = g.def("HInt", g.heapSort("Int"), fmt.Sprintf("(store %s %s %s)", g.heap["Int"], obj, row))
+		if g.view.Bytes {
+			g.assumeRaw(fmt.Sprintf("(= (bseq %s 0 %s) (strbytes %s))", row, ln, v.S[0]))
+		}
 		return &Val{T: to, Sort: "Slice", S: []string{obj, "0", ln, ln}}
 	}
 	return g.havocVal(to, "conv")
